@@ -324,6 +324,16 @@ func g04Render(v g04Vec, o g04Opts) string {
 		val = junk + encodeSchemeW(v.value, o.enc, o.inter, o.mask>>7, q != "", runLen, o.wide) + "x"
 	case "indirect":
 		val = insertNul(applyMask(v.value, o.mask>>5), int(o.inter%7))
+		if o.wide && q != "" {
+			// outside the C04 grammar: white space around the named attribute
+			// (the reference compares the raw value)
+			pads := []string{" ", "\t", "\n", "\xa0", "\x00", "\f"}
+			if o.enc&1 == 1 {
+				val = pads[int(o.enc>>1)%len(pads)] + val
+			} else {
+				val += pads[int(o.enc>>1)%len(pads)]
+			}
+		}
 	default:
 		val = []string{"x", "alert(1)", "1", "a:b", "x y"}[o.junk%5]
 		if q == "" {
@@ -445,6 +455,9 @@ func genC04x(w *core.Worker, u core.Unit, wide bool, emit func(s, meta string)) 
 					}
 				}
 			}
+		}
+		if wide && v.kind == "indirect" && i%3 == 0 {
+			o.wide = true
 		}
 		if wide && v.kind == "url" && i%5 == 0 {
 			o.wide = true
